@@ -47,14 +47,21 @@ func (c *countingCtx) Done() <-chan struct{} {
 	if c.cancelAt >= 0 && i >= c.cancelAt {
 		return c.closed
 	}
+	if i >= countingCtxCap {
+		// a trampoline that is still running after this many iterations on a tree of a few dozen nodes
+		// does not terminate: stop it (the result "cancelled" with this count is then judged)
+		return c.closed
+	}
 	return c.open
 }
 func (c *countingCtx) Err() error {
-	if c.cancelAt >= 0 && c.calls > c.cancelAt {
+	if (c.cancelAt >= 0 && c.calls > c.cancelAt) || c.calls > countingCtxCap {
 		return context.Canceled
 	}
 	return nil
 }
+
+const countingCtxCap = 300000
 func (c *countingCtx) Value(interface{}) interface{} { return nil }
 
 type treeErr int
